@@ -1,7 +1,7 @@
 #!/usr/bin/env python3
 """Confirm a seeded defect delivered by a sub-agent and store it under /verif/seeded/<id>/.
 
-usage: verify_seed.py <Cxx> <A|B> [--no-suite]
+usage: verify_seed.py <Cxx> <A|B> [--no-suite] [--round2]   (round 2: deliveries under /tmp/seed2, stored as <Cxx>-C / <Cxx>-D)
 
 Steps, all in a fresh scratch worktree of /repo (removed afterwards):
   1. demo passes on the unchanged tree, 2. patch applies and builds, 3. demo fails with the patch,
@@ -24,8 +24,9 @@ def sh(cmd, cwd, timeout=1800):
 def main():
     prop, which = sys.argv[1], sys.argv[2]
     suite = "--no-suite" not in sys.argv
-    src = f"/tmp/seed/{prop}-out/{which}"
-    sid = f"{prop}-{which}"
+    r2 = "--round2" in sys.argv
+    src = f"/tmp/seed2/{prop}-out/{which}" if r2 else f"/tmp/seed/{prop}-out/{which}"
+    sid = f"{prop}-{ {'A': 'C', 'B': 'D'}[which] }" if r2 else f"{prop}-{which}"
     wt = f"/tmp/seedv/{sid}"
     os.makedirs("/tmp/seedv", exist_ok=True)
     if os.path.exists(wt):
